@@ -44,6 +44,10 @@ package parser
 //@   at call ReadFile#1 set parsed = 2
 //@   at fieldstore IsNormalGox#1 assert [marks] f.IsProj == isProjS(conf, fname) && f.IsClass == isClassS(conf, fname) && f.IsNormalGox == isNormalGoxS(conf, fname)
 //@   at backedge 1 assert [exactly-the-included] (parsed != 0) == includedS(d, conf)
+//@   # grouping: a Go file is added to the GoFiles map of the package its clause names; that map is created once (when
+//@   # the package has none yet), so the files already recorded are kept
+//@   at fieldstore GoFiles#1 assert [go-file-map-is-created-only-once] before(pkg.GoFiles) == nil && len(pkg.GoFiles) == 0
+//@   at mapupdate #1 assert [go-file-recorded-under-its-name] pkg.GoFiles[filename] == src && before(pkg.GoFiles) == pkg.GoFiles
 //@ loop ParseFSDir#1
 //@   invariant fs != nil && pkgs != nil && conf.ClassKind != nil
 //@   invariant forall w string :: has(pkgs, w) ==> pkgs[w] != nil && pkgs[w].Files != nil
